@@ -57,13 +57,47 @@ def chunks(seq, n):
     return [seq[i : i + size] for i in range(0, len(seq), size)]
 
 
-def pmap(func, items, workers, chunksize=1):
+class _Guard:
+    """Picklable wrapper: an unexpected exception inside a worker (almost always raised by the
+    library under test on an input the worker did not anticipate) becomes a violation record
+    instead of killing the whole run.  HarnessError (oracle self-tests, nondeterminism) passes."""
+
+    def __init__(self, func):
+        self.func = func
+
+    def __call__(self, item):
+        from vf.cli import HarnessError, _jsonable
+
+        try:
+            return self.func(item)
+        except HarnessError:
+            raise
+        except Exception as exc:  # noqa: BLE001
+            import traceback
+
+            tb = traceback.extract_tb(exc.__traceback__)
+            where = next((f"{fr.filename.split('/')[-1]}:{fr.lineno}:{fr.name}" for fr in reversed(tb) if "/grid/" in fr.filename), "harness")
+            return {
+                "evaluations": 1, "inadmissible": 0, "nontrivial": 0, "nontrivial_ids": [], "samples": [], "notes": [],
+                "maxima": {}, "section": "unexpected-exception",
+                "violations": [{
+                    "key": f"unexpected-exception:{type(exc).__name__}:{where}",
+                    "what": f"{type(exc).__name__}: {exc} (raised at {where}) while executing case {str(_jsonable(item))[:300]}",
+                    "case": {"route": "unexpected-exception", "item": _jsonable(item)},
+                    "details": {"traceback": traceback.format_exc()[-1500:]},
+                }],
+            }
+
+
+def pmap(func, items, workers, chunksize=1, guard=True):
     """Order-preserving parallel map over a fork pool of long-lived workers.
 
     ``func`` must be a module-level function; results are plain picklable data.
     With workers<=1 runs inline (used to show results do not depend on the pool size).
     """
     items = list(items)
+    if guard:
+        func = _Guard(func)
     if workers <= 1 or len(items) <= 1:
         return [func(it) for it in items]
     ctx = mp.get_context("fork")
@@ -71,8 +105,10 @@ def pmap(func, items, workers, chunksize=1):
         return pool.map(func, items, chunksize=chunksize)
 
 
-def pmap_unordered(func, items, workers, chunksize=1):
+def pmap_unordered(func, items, workers, chunksize=1, guard=True):
     items = list(items)
+    if guard:
+        func = _Guard(func)
     if workers <= 1 or len(items) <= 1:
         for it in items:
             yield func(it)
